@@ -151,3 +151,12 @@ def scale(c, rm):
         a = [q for q in rm[1][n + 1:] if q is not None and q > 0]
         return min(max([1] + [1 / q for q in a]), 1 << 16)
     return 1
+
+
+Q_LATTICE_PREDICATES = False
+
+
+def gen_q(rng, tier):
+    """exact-rational cases: see qgen.py"""
+    from . import qgen
+    return qgen.fusion(rng, tier)
